@@ -148,7 +148,7 @@ def drive(mod, tier, seed, out=sys.stdout):
             if time.time() > deadline and not first_round:
                 stop_submitting = True
             first_round = False
-            if time.time() > deadline + max(120.0, budget):
+            if time.time() > deadline + max(420.0, budget):
                 # hard watchdog on the whole check: abandon what is still running
                 for f in list(pending):
                     f.cancel()
